@@ -27,7 +27,11 @@ def build_cases(tier, seed):
             # vehicle carrying passengers to stop, every step: the trip must go on to the destination all the same
             prof.update({"dts": [5, 7, 10], "grid": {"spurs": 0.6, "stubs": 0.3, "speeds": ["uniform", "varied", "mixed"][(i // 6) % 3]}, "n_requests": (150, 260), "n_vehicles": (6, 12), "soc": [0.6, 0.9], "timeouts": [600], "p_ice": 0.0})
             ctrl = {"stack": ["Dispatcher", "ChargingFleetManager", {"interrupt": {"states": ["ServicingTrip"], "p": 1.0, "kinds": ["Idle", "Idle", "DispatchStation", "DispatchBase", "Reposition"]}}]}
-        cases.append(trace_case("C07", i, s, prof, ctrl, steps, ["C07"], opts=({"inject_requests": {"every": 6, "public": i % 10 == 7}} if i % 5 == 2 else {})))
+        opts = {"inject_requests": {"every": 6, "public": i % 10 == 7}} if i % 5 == 2 else {}
+        if i % 6 == 0:
+            # a co-simulation client that hands stations and bases back with other coordinates (to be refused)
+            opts = dict(opts, cosim_ops={"every": 4, "kinds": ["try_move"]})
+        cases.append(trace_case("C07", i, s, prof, ctrl, steps, ["C07"], opts=opts))
     cases += systematic_cases("C07", tier, seed)
     if tier == "thorough":
         for w in ("denver_downtown/denver_demo.yaml", "denver_downtown/denver_demo_fleets.yaml"):
